@@ -396,12 +396,19 @@ func (reader *DataReader) next() ([]byte, *DataPos, error) {
 		off := int64(reader.blockID) * blockSize
 		// 文件恰好在 block 末尾的填充区之前结束时, 下一个 block 不存在
 		if off >= fileSize {
+			// 已读取到记录的前半部分而文件结束, 说明记录不完整, 不能当作正常结束而静默丢弃
+			if cnt > 0 {
+				return nil, nil, io.ErrUnexpectedEOF
+			}
 			return nil, nil, io.EOF
 		}
 		// 当前 block 实际大小
 		size := uint32(min(fileSize-off, blockSize))
 
 		if reader.offset >= size {
+			if cnt > 0 {
+				return nil, nil, io.ErrUnexpectedEOF
+			}
 			return nil, nil, io.EOF
 		}
 
@@ -415,6 +422,10 @@ func (reader *DataReader) next() ([]byte, *DataPos, error) {
 		data, chunkType, err := DecodeChunk(reader.blockBuf[reader.offset:])
 		if err != nil {
 			return nil, nil, err
+		}
+		// chunk 类型必须与其在记录中的位置一致, 否则会把不属于同一条记录的 chunk 拼接在一起
+		if (cnt == 0) != (chunkType == Full || chunkType == First) {
+			return nil, nil, ErrInvalidCRC
 		}
 		res = append(res, data...)
 		cnt++
